@@ -112,8 +112,60 @@ var layouts = []layout{
 	{name: "include-in-sibling-with-root-prefix", paths: []string{"idl/svc.thrift", "idl2/m2.thrift", "idl/m3.thrift", "idl/m4.thrift"}, root: "idl", out: "parent/out", minMods: 2, ancestry: true},
 	{name: "implicit-root-sibling-with-name-prefix", paths: []string{"idl/svc/svc.thrift", "idl/svc2/m2.thrift", "idl/svc/m3.thrift", "idl/svc22/m4.thrift"}, root: "", out: "parent/out", minMods: 2},
 	{name: "implicit-root-sibling-is-name-prefix", paths: []string{"idl/svc2/svc.thrift", "idl/svc/m2.thrift", "idl/svc2/m3.thrift", "idl/s/m4.thrift"}, root: "", out: "parent/out", minMods: 2},
+	// sibling directories / files whose names differ in letter case only are
+	// different directories / files (the sandbox is case-sensitive)
+	{name: "implicit-root-sibling-differs-in-case", paths: []string{"idl/Billing/svc.thrift", "idl/billing/m2.thrift", "idl/Billing/m3.thrift", "idl/BILLING/x/m4.thrift"}, root: "", out: "parent/out", minMods: 2},
+	{name: "implicit-root-deep-sibling-differs-in-case", paths: []string{"idl/v1/api/svc.thrift", "idl/v1/Api/m2.thrift", "idl/V1/api/m3.thrift", "idl/v1/api/m4.thrift"}, root: "", out: "parent/out", minMods: 2},
+	{name: "root-sibling-differs-in-case", paths: []string{"idl/svc.thrift", "Idl/m2.thrift", "idl/m3.thrift", "IDL/m4.thrift"}, root: "idl", out: "parent/out", minMods: 2, ancestry: true},
+	{name: "files-differ-in-case", paths: []string{"idl/svc.thrift", "idl/M2.thrift", "idl/m2.thrift", "idl/sub/M3.thrift"}, root: "", out: "parent/out", minMods: 2},
+	{name: "out-differs-in-case-from-root", paths: []string{"Gen/svc.thrift", "Gen/sub/m2.thrift", "gen/m3.thrift", "Gen/m4.thrift"}, root: "", out: "gen", minMods: 1},
 	{name: "dotdot-named-dir", paths: []string{"idl/svc.thrift", "idl/..x/m2.thrift", "idl/m3.thrift", "idl/m4.thrift"}, root: "idl", out: "parent/out", minMods: 2, mayReject: true},
 	{name: "relative-arguments", paths: []string{"idl/a/svc.thrift", "idl/b/m2.thrift", "idl/a/deep/m3.thrift", "idl/m4.thrift"}, root: "idl", out: "parent/out", minMods: 1, relArgs: true},
+}
+
+// Letter-case variations of one path component.
+var recasings = []struct {
+	label string
+	f     func(string) string
+}{
+	{"upper-first", func(s string) string { return strings.ToUpper(s[:1]) + s[1:] }},
+	{"all-upper", strings.ToUpper},
+	{"upper-last", func(s string) string { return s[:len(s)-1] + strings.ToUpper(s[len(s)-1:]) }},
+}
+
+// recase returns the layout with one component (directory, or the file name
+// without its extension) of module mod's path spelled in another letter case:
+// the module then lives in a sibling directory / file that differs from the
+// original in case only. comp counts components from the left; how selects
+// the variation. ok is false when nothing changes (component without lower
+// case letters, or the new path is already in use).
+func recase(l layout, mod, comp, how int) (layout, string, bool) {
+	parts := strings.Split(l.paths[mod], "/")
+	comp %= len(parts)
+	old := parts[comp]
+	stem, ext := old, ""
+	if comp == len(parts)-1 {
+		stem, ext = strings.TrimSuffix(old, ".thrift"), ".thrift"
+	}
+	if stem == "" || strings.HasPrefix(stem, ".") {
+		return l, "", false
+	}
+	rc := recasings[how%len(recasings)]
+	parts[comp] = rc.f(stem) + ext
+	np := strings.Join(parts, "/")
+	for _, p := range l.paths {
+		if p == np {
+			return l, "", false
+		}
+	}
+	out := l
+	out.paths = append([]string{}, l.paths...)
+	out.paths[mod] = np
+	what := "directory"
+	if ext != "" {
+		what = "file-name"
+	}
+	return out, "recased-" + what + "/" + rc.label, true
 }
 
 // newCase builds a case on layout l with n modules.
@@ -124,8 +176,18 @@ func newCase(src string, l layout, n int, shape string, bad int, kind string) Ca
 		Modules: append([]string{}, paths...),
 		Pre:     []File{{Path: "parent/sibling.txt", Data: "not yours\n"}},
 	}
+	c.Layout = l.name
 	if n >= l.minMods {
 		c.Ancestry, c.MayReject = l.ancestry, l.mayReject
+	}
+	// whatever the table says: a module that is not beneath an explicit root
+	// is an ancestry violation (layouts also come out of recase)
+	if l.root != "" && l.root != "." {
+		for _, p := range paths {
+			if _, ok := relTo(l.root, p); !ok {
+				c.Ancestry = true
+			}
+		}
 	}
 	if bad >= 0 {
 		c.Bad = &Bad{File: paths[bad], Kind: kind}
@@ -180,6 +242,7 @@ const (
 	relIndependent = "independent"
 	relCore        = "vs-core"
 	relPlugin      = "vs-plugin"
+	relInstance    = "vs-instance" // the other source is a second instance of the same plugin (same name, other arguments)
 )
 
 // contents of a plugin file relative to the file it collides with.
@@ -194,7 +257,7 @@ func contentsOf(rel string) []string {
 	switch rel {
 	case relCore:
 		return []string{contOwn, contIdentical, contOneOff}
-	case relPlugin:
+	case relPlugin, relInstance:
 		return []string{contOwn, contIdentical}
 	}
 	return []string{contOwn}
@@ -216,6 +279,14 @@ func withPathCase(src string, sh shape, rel, cont string) Case {
 		b := fplab.OKPlugin(pluginNames[1])
 		b.Script.Generate.Files = map[string][]byte{target: []byte("from zqbravo\n")}
 		c.Plugins = append(c.Plugins, b)
+	case relInstance:
+		// -p "zqalfa --instance=de" next to -p zqalfa: two processes of one
+		// plugin, both answering the handshake as zqalfa
+		target = "shared/both.txt"
+		b := fplab.OKPlugin(pluginNames[0])
+		b.Instance = "de"
+		b.Script.Generate.Files = map[string][]byte{target: []byte("from zqbravo\n"), "zqalfa/de.txt": []byte("second instance\n")}
+		c.Plugins = append(c.Plugins, b)
 	}
 	mine := []byte("from zqalfa\n")
 	switch {
@@ -223,7 +294,7 @@ func withPathCase(src string, sh shape, rel, cont string) Case {
 		mine = []byte(CoreSame)
 	case rel == relCore && cont == contOneOff:
 		mine = []byte(CoreOff)
-	case rel == relPlugin && cont == contIdentical:
+	case (rel == relPlugin || rel == relInstance) && cont == contIdentical:
 		mine = []byte("from zqbravo\n")
 	}
 	a.Script.Generate.Files = map[string][]byte{sh.make(target): mine, "zqalfa/other.txt": []byte("second file\n")}
@@ -240,7 +311,7 @@ func withPathCase(src string, sh shape, rel, cont string) Case {
 func TestPathGrid(t *testing.T) {
 	var cases []Case
 	for _, sh := range shapes {
-		for _, rel := range []string{relIndependent, relCore, relPlugin} {
+		for _, rel := range []string{relIndependent, relCore, relPlugin, relInstance} {
 			for _, cont := range contentsOf(rel) {
 				for _, pre := range []bool{false, true} {
 					c := withPathCase("path-grid", sh, rel, cont)
@@ -253,7 +324,7 @@ func TestPathGrid(t *testing.T) {
 		}
 	}
 	ran := gridRun(t, "path-grid", cases)
-	ev.Exhaustive(fmt.Sprintf("path-grid(%d path shapes x {independent, equal to a core path with own / the core-generated / one-byte-off contents, equal to another plugin's path with own / identical contents} x {fresh, pre-populated output dir})", len(shapes)), true)
+	ev.Exhaustive(fmt.Sprintf("path-grid(%d path shapes x {independent, equal to a core path with own / the core-generated / one-byte-off contents, equal to another plugin's path with own / identical contents, equal to the path of a second instance of the same plugin with own / identical contents} x {fresh, pre-populated output dir})", len(shapes)), true)
 	ev.Note("path-grid", fmt.Sprintf("%d cases in total, %d in this shard", len(cases), ran))
 }
 
@@ -418,7 +489,21 @@ func genCase(t *rapid.T) Case {
 		bad = rapid.IntRange(0, n-1).Draw(t, "bad_module")
 		kind = rapid.SampledFrom(badKinds).Draw(t, "bad_kind")
 	}
+	// a quarter of the cases: one or two modules move to a sibling directory /
+	// file that differs from the drawn one in letter case only
+	var recased []string
+	if rapid.IntRange(0, 3).Draw(t, "recase") == 0 {
+		for k, times := 0, rapid.IntRange(1, 2).Draw(t, "recasings"); k < times; k++ {
+			mod := rapid.IntRange(0, n-1).Draw(t, "recased_module")
+			comp := rapid.IntRange(0, 5).Draw(t, "recased_component")
+			how := rapid.IntRange(0, len(recasings)-1).Draw(t, "recasing")
+			if l2, label, ok := recase(l, mod, comp, how); ok {
+				l, recased = l2, append(recased, label)
+			}
+		}
+	}
 	c := newCase("random", l, n, shp, bad, kind)
+	c.Recased = recased
 	c.NoRecurse = rapid.IntRange(0, 5).Draw(t, "no_recurse") == 0
 	c.RelArgs = c.RelArgs || rapid.IntRange(0, 3).Draw(t, "rel_args") == 0
 	core := predict(c, "/sandbox").Core
@@ -430,10 +515,27 @@ func genCase(t *rapid.T) Case {
 	for i := 0; i < np; i++ {
 		name := order[i]
 		p := fplab.OKPlugin(name)
+		// a third of the later plugins are a further instance of an earlier
+		// plugin: the same executable with other arguments (two processes, two
+		// sources, one plugin name). Such a plugin writes below the directory
+		// called like the plugin - as the first instance does - or below one
+		// of its own.
+		dir := name
+		if i > 0 && rapid.IntRange(0, 2).Draw(t, fmt.Sprintf("plugin%d_is_instance", i)) == 0 {
+			earlier := c.Plugins[rapid.IntRange(0, i-1).Draw(t, fmt.Sprintf("plugin%d_instance_of", i))]
+			name = earlier.Name
+			p = fplab.OKPlugin(name)
+			p.Instance = fmt.Sprintf("i%d", i+1)
+			dir = name
+			if rapid.Bool().Draw(t, fmt.Sprintf("plugin%d_own_dir", i)) {
+				dir = name + "-" + p.Instance
+			}
+			name = p.ID() // labels of the draws below
+		}
 		p.Script.Generate.Files = map[string][]byte{}
 		dests := map[string]bool{}
 		for j, nf := 0, rapid.IntRange(0, 3).Draw(t, name+"_files"); j < nf; j++ {
-			target := fmt.Sprintf("%s/f%d.txt", name, j)
+			target := fmt.Sprintf("%s/f%d.txt", dir, j)
 			rel := relIndependent
 			switch r := rapid.IntRange(0, 9).Draw(t, fmt.Sprintf("%s_rel%d", name, j)); {
 			case r == 0 && len(core) > 0:
@@ -479,7 +581,7 @@ func genCase(t *rapid.T) Case {
 		}
 		if rapid.IntRange(0, 5).Draw(t, name+"_fails") == 0 {
 			f := rapid.SampledFrom(fails).Draw(t, name+"_failure")
-			fplab.Fill(name, f[0], f[1], p.Script.StepOf(f[0]))
+			fplab.Fill(p.Name, f[0], f[1], p.Script.StepOf(f[0]))
 		}
 		if rapid.IntRange(0, 3).Draw(t, name+"_segmented") == 0 {
 			p.Script.Generate.Write, p.Script.Generate.Segs = fplab.WSegments, []int{1, 5, 2}
